@@ -392,6 +392,9 @@ def binary_tree(rng, pools, n, moves, p_unary, root_unary):
     spec = gen.tree(rng, n, pools, max_arity=2, p_unary=p_unary, max_chain=2,
                     moves=moves, root_pieces=1 if root_unary else min(2, n),
                     p_root_unary=0.3 if root_unary else 0)
+    gen.spice(rng, spec, ['cat-apostrophe', 'pos-apostrophe', 'cat-keyword',
+                          'cat-punct-char', 'pos-punct-char', 'word-unispace',
+                          'word-unicode', 'word-keyword', 'word-percent'])
     gen.assign_heads(rng, spec)
     return spec
 
@@ -668,6 +671,12 @@ def run_writer(ctx, rng, pools, long=False):
     case = {'kind': 'writer', 'system': system, 'specs': specs,
             'pos': rng.random() < 0.5,
             'enc': rng.choice(['utf-8', 'utf-8', 'latin-1'])}
+    try:
+        for s_ in specs:
+            for t_ in gen.tokens_of(s_['root']):
+                (t_['w'] + t_['p']).encode(case['enc'])
+    except UnicodeError:
+        case['enc'] = 'utf-8'
     writer_case(ctx, case, rng)
 
 
